@@ -589,7 +589,8 @@ func runImp(c impCase) (o impObs) {
 	case "auto":
 		i.ImportUsed()
 		// the documented names: the last path element, or parent_last when that collides
-		for _, n := range []string{path.Base(c.Pkg), fixKey(c.Pkg)} {
+		// (any spelling that joins the path elements with '_' is accepted)
+		for _, n := range []string{path.Base(c.Pkg), fixKey(c.Pkg), strings.ReplaceAll(c.Pkg, "/", "_")} {
 			if strings.Contains(n, "/") {
 				continue // not an identifier: nothing a script could write
 			}
